@@ -4,7 +4,7 @@ import numpy as np
 from . import common, circ
 
 PID = 'C10'
-TARGETS = ['KyupyVerif.Props.C10', 'KyupyVerif.Props.C10Datasheet']
+TARGETS = ['KyupyVerif.Props.C10', 'KyupyVerif.Props.C10Datasheet', 'KyupyVerif.Props.C10Library']
 RULE = ('(a) correspondence: Lean model dumps (Model/Transform.lean) vs real copy() / pickle round trip / '
         'eliminate_1to1_forks() on random circuits (Verilog- and bench-reader port styles, permuted node order so that state '
         'elements sit anywhere incl. last, fork dictionary order != index order), NNet.wf and NNet.forkIns1 (hypotheses of '
@@ -34,8 +34,10 @@ def theorems():
 
 
 def theorems_ds():
-    """composition with C19 (separate module: it depends on the generated library tables)"""
-    return common.theorems_of('KyupyVerif/Props/C10Datasheet.lean', 'KV.C10')
+    """composition with C19 (separate module: it depends on the generated library tables) and the progress theorems with the
+    kernel sweep over the generated implementation dumps (Props/C10Library.lean)"""
+    return (common.theorems_of('KyupyVerif/Props/C10Datasheet.lean', 'KV.C10') +
+            common.theorems_of('KyupyVerif/Props/C10Library.lean', 'KV.C10'))
 
 
 def get_tlib(name):
@@ -966,6 +968,7 @@ def is_regular(c, u, impl):
 def corr_subst(ck, n):
     rng = ck.rng
     raised = changed = covered = covered_rm = covered_gap = covered_gen = covered_gen_ign = covered_gen_nodes = 0
+    some_cov = some_raise_outside = 0
     for it in range(n):
         impl, itags = lib_impl(rng) if rng.random() < 0.3 else rand_impl(rng)
         c, htags = rand_host(rng, impl)
@@ -1045,8 +1048,34 @@ def corr_subst(ck, n):
                         ck.broken_tie('substitute_sem_general contains the uses of substitute_sem', f'hypotheses {hyp}', inp={'request': req})
             except Exception as ex:
                 ck.broken_tie('substitute_sem hypotheses', f'driver: {type(ex).__name__}: {ex}'[:300], inp={'request': req})
+        # hypotheses of the PROGRESS theorem C10.substitute_isSome (audit finding 6) evaluated on EVERY case, raising ones included:
+        # inside the hypotheses the model returns a circuit (theorem), so must the real code (a raise there is a broken tie of
+        # the domain facts: host wfNoTrail with gap-free forks, cell a node that is no port / no fork, implementation well-formed)
+        sometag = 'isSome-hyp:not-evaluated'
+        try:
+            sh = common.run_driver(['substsome' + req[len('subst'):]])[0].split()
+            snames = ['host-wfNoTrail', 'host-forks-gapfree', 'impl-wf', 'cell-node-no-port', 'cell-no-fork', 'implGenOK', 'targetsOK',
+                      'noSelfIgn', 'names-fresh', 'arity']
+            sfailed = [nm for nm, v in zip(snames, sh) if v != '1']
+            if (sh[10] == '1') != (not sfailed):
+                ck.broken_tie('substitute_isSome hypotheses', f'substSomeHypB = {sh[10]} but clauses {sh[:10]}', inp={'request': req})
+            if not sfailed:
+                sometag = 'isSome-hyp:covered'; some_cov += 1
+                if real == 'raise' or sh[11] != '1':
+                    ck.broken_tie('substitute_isSome: inside the hypotheses the call must succeed',
+                                  f'real {"raises" if real == "raise" else "returns"}, model isSome = {sh[11]}', inp={'request': req})
+            else:
+                sometag = 'isSome-hyp:uncovered:' + sfailed[0]
+                # domain facts: every generated host is well-formed with gap-free forks, every generated implementation well-formed
+                if sfailed[0] in ('host-wfNoTrail', 'host-forks-gapfree', 'impl-wf', 'cell-node-no-port', 'cell-no-fork'):
+                    ck.broken_tie('substitute_isSome: domain fact fails on a generated case', f'{sfailed[0]}', inp={'request': req})
+                if real == 'raise': some_raise_outside += 1
+            if 'lib' in itags and sh[12] != '1':
+                ck.broken_tie('library_impls_ok on a real library implementation', f'implSomeOKB = {sh[12]}', inp={'request': req})
+        except Exception as ex:
+            ck.broken_tie('substitute_isSome hypotheses', f'driver: {type(ex).__name__}: {ex}'[:300], inp={'request': req})
         ck.case(key=('subst', req), nontrivial=real != 'raise' and len(impl.nodes) > 0,
-                tag=['stream:corr-subst', f"subst-result:{'raise' if real == 'raise' else 'ok'}", semtag] + [f'impl:{t}' for t in itags] +
+                tag=['stream:corr-subst', f"subst-result:{'raise' if real == 'raise' else 'ok'}", semtag, sometag] + [f'impl:{t}' for t in itags] +
                     [f'impl-shape:{x}' for x in feats] + [f'host:{t}' for t in sorted(set(htags))])
     ck.extra['corr_subst_raised'] = raised
     ck.extra['corr_subst_with_removed_nodes'] = changed
@@ -1056,6 +1085,8 @@ def corr_subst(ck, n):
     ck.extra['corr_subst_in_hypotheses_of_substitute_sem_general'] = covered_gen
     ck.extra['corr_subst_only_general_ignored_pin'] = covered_gen_ign
     ck.extra['corr_subst_only_general_no_designated_cell'] = covered_gen_nodes
+    ck.extra['corr_subst_in_hypotheses_of_substitute_isSome'] = some_cov
+    ck.extra['corr_subst_raising_outside_hypotheses_of_substitute_isSome'] = some_raise_outside
 
 
 def corr_resolve(ck, n):
